@@ -341,7 +341,10 @@ func runC17(t *testing.T, sc *world.Scenario) *check.Result {
 		got := observedBinding(co)
 		for ent, paths := range want {
 			for _, p := range paths {
-				if !got[ent][p] {
+				// the entry is bound to the named device if its goroutines touch the device's file at all:
+				// whether fan2go reads a file before writing it (or instead of writing it) is its own business
+				file := p[strings.IndexByte(p, ' ')+1:]
+				if !got[ent]["read "+file] && !got[ent]["write "+file] {
 					res.Violate("C17", "bound-to-named-device", "bound-to-named-device "+entKind(ent)+" "+pathRole(p), 0, nil,
 						"%s: expected I/O %q was not observed; observed %v (enumeration order #%d)", ent, p, keysOfStr(got[ent]), k)
 				}
